@@ -218,3 +218,11 @@ Theorem C20_middle_array_bhiksha_refines_sorted_records : forall m, 0 <= m_base 
     | None => forall i, lo <= i < hi -> word_of recs i <> word
     end.
 Proof. exact midA_refines. Qed.
+
+(* C20: WriteNonPositiveFloat31 stores exactly the low 31 bits of the pattern -- also for +0.0 (a log probability of exactly 0 is valid
+        ARPA) and for any other 32-bit pattern -- so it never touches the neighbouring field; ReadNonPositiveFloat31 forces the sign on. *)
+From Kenlm Require Import C03.TrieMemProofs.
+Theorem C20_float31_is_31_bit_field : forall mem base off v, 0 <= v < 2 ^ 32 -> 0 <= off ->
+  WriteNonPositiveFloat31 mem base off v = WriteInt57 mem base off 31 (v mod 2 ^ 31) /\
+  ReadNonPositiveFloat31 mem base off = Z.lor (ReadInt57 mem base off 31 (Z.ones 31)) kSignBit.
+Proof. intros mem base off v Hv Ho. split; [apply WriteFloat31_as_int; exact Hv|apply ReadFloat31_as_int; exact Ho]. Qed.
